@@ -2,6 +2,7 @@ import SwcVerif.Props.C19
 import SwcVerif.Props.C19Gen
 import SwcVerif.Props.C19Front
 import SwcVerif.Props.C19Map
+import SwcVerif.Refine.PopFromSwc
 #print axioms C19.getIdx_spec
 #print axioms C19.step_len
 #print axioms C19.load_at_most_once
@@ -43,3 +44,9 @@ import SwcVerif.Props.C19Map
 #print axioms C19.frontState_inv
 #print axioms C19.generated_map_results
 #print axioms C19.generated_map_load_at_most_once
+#print axioms RefineFromSwc.lazy_init_eq
+#print axioms RefineFromSwc.pop_init_fresh
+#print axioms RefineFromSwc.pops_init_eq
+#print axioms RefineFromSwc.fs_for5_loop
+#print axioms RefineFromSwc.body_split_partial
+#print axioms RefineFromSwc.pops_from_swc_tail_partial
